@@ -211,7 +211,17 @@ func c19Object(c *verifsim.Chooser) (func() interface{}, string) {
 }
 
 func c19ObjectValue(c *verifsim.Chooser) (interface{}, string) {
-	switch 1 + c.Intn(4) {
+	switch 1 + c.Intn(5) {
+	case 5:
+		// two maps that refer to each other, each reachable under two
+		// top-level keys: what a conversion that visits every value once
+		// makes of them must not depend on which key it meets first
+		// (reflect's MapRange is outside the map-order seam; the native
+		// repetitions and the cross-process runs decide) - C19-w15a
+		x := map[string]interface{}{"n": 1}
+		y := map[string]interface{}{"n": 2, "peer": x}
+		x["peer"] = y
+		return map[string]interface{}{"A": x, "B": y, "M": x, "S": y, "C": 3, "Items": []interface{}{x, y}}, "map with two mutually referring maps"
 	case 1:
 		m := map[string]interface{}{"A": 2, "B": 1, "C": 3, "S": "hall", "Items": []interface{}{3, 1, 2},
 			"M": map[string]interface{}{"b": 1, "a": "x", "c": []interface{}{1, "z"}, "d": map[string]interface{}{"y": 1, "x": 2}}}
@@ -728,7 +738,7 @@ func (p *c19) Run(c *verifsim.Chooser, st *Stats, render bool) *Outcome {
 	}
 	// Go's own randomised order (guards sites the rewriter did not see)
 	if len(o.V) == 0 {
-		for i := 0; i < 2; i++ {
+		for i := 0; i < 4; i++ {
 			obs := p.execute(cs, nil)
 			if what, det := ref.diff(obs); what != "" {
 				o.violate("C19/native-divergence", what, "under Go's native map order the %s differs from the ascending order (a map-range site outside the seam?): %s", what, det)
